@@ -254,7 +254,9 @@ class Engine:
                 out_ = SetV(lambda v, r=r: S3(Z(r), Z(v[0]), Z(v[1])), 2)
                 return out_
 
-            return SeqV(n, mk_set, "list", {"cellsets": S3})
+            idm = fresh_fun(name + "_idx", z3.IntSort(), z3.IntSort())  # trigger-only: idx(r) names the r-th set
+            self.seed_funs.append(idm)
+            return SeqV(n, mk_set, "list", {"cellsets": S3, "idmark": idm})
         if sort == "opaque":
             return ObjV("opaque", {"__id__": IntV(fresh(name))})  # a value the function never inspects
         if sort == "CellSet":
@@ -530,25 +532,55 @@ class Engine:
             for j_, conj_ in enumerate(goal2.children()):
                 self.emit(kind, base, conj_, f"{tag}/{j_}", consts)
             return
-        if z3.is_quantifier(goal2) and goal2.is_exists() and goal2.num_vars() == 1 and goal2.var_sort(0) == z3.IntSort():
-            # a goal that asks for a witness: offer the obvious candidates (the integer constants opened so
-            # far, and the lengths / last indices of the local lists).  goal == goal \/ instances: sound and
-            # nothing is lost, but trigger-based instantiation now has ground instances to work with.
-            cands = [c_ for c_ in consts if z3.is_int(c_)]
+        # existential hypotheses are opened with fresh constants (sound: new names for the witnesses); the
+        # constants join the seeds and the witness candidates below
+        wit_consts = []
+        if _has_pos_exists(goal2):
+            opened = []
+            for h_ in hyps:
+                if z3.is_quantifier(h_) and h_.is_exists():
+                    opened.extend(_hyp_skolem(h_, wit_consts))  # witnesses of the hypotheses: candidates only, not seeds
+                else:
+                    opened.append(h_)
+            hyps = opened
+        if _has_pos_exists(goal2):
+            # a goal that asks for witnesses: offer the obvious candidates (the integer constants opened so
+            # far, the lengths / last indices of the local lists, the loop indices).  Every  exists j. body  in
+            # a positive position becomes  body[c1] \/ ... \/ exists j. body : an equivalent formula, but
+            # trigger-based instantiation now has ground instances to work with.
+            basic = [c_ for c_ in consts if z3.is_int(c_)]
+            extra = []
             for nm_, v_ in st.env.items():
                 if isinstance(v_, (ListV, TupListV)):
-                    cands += [v_.n, v_.n - 1]
+                    basic += [v_.n, v_.n - 1]
                 elif nm_.startswith("__k") and isinstance(v_, IntV):
-                    cands.append(v_.t)
-            seen_, inst_ = set(), []
-            for t_ in cands[:10]:
-                if t_.get_id() not in seen_:
-                    seen_.add(t_.get_id())
-                    inst_.append(z3.substitute_vars(goal2.body(), t_))
-            if inst_:
-                goal2 = z3.Or(inst_ + [goal2])
+                    extra.append(v_.t)
+            extra += [c_ for c_ in wit_consts if z3.is_int(c_)]
+
+            def uniq_(ts):
+                seen_, out_ = set(), []
+                for t_ in ts:
+                    if t_.get_id() not in seen_:
+                        seen_.add(t_.get_id())
+                        out_.append(t_)
+                return out_
+
+            goal_plain = goal2
+            goal2 = _offer_witnesses(goal_plain, uniq_(basic)[-8:])
+            # second attempt (only if the first is undecided): also the loop indices and the witnesses of
+            # existential hypotheses - more ground instances, but every instance drags its own instantiations in
+            alt_goal = _offer_witnesses(goal_plain, uniq_(basic + extra)[-10:]) if extra else None
+        else:
+            alt_goal = None
         hyps.append(divmod_axiom())
         hyps.extend(self.global_axioms)
+        if wit_consts and self.seed_funs:
+            # the witnesses of existential hypotheses get the cheap unary seeds only (index marks, positions)
+            wmark = fresh_fun("wmark", z3.IntSort(), z3.BoolSort())
+            for wc_ in wit_consts:
+                if z3.is_int(wc_):
+                    for f_ in self.seed_funs:
+                        hyps.append(wmark(f_(wc_)))
         tconsts = [c_ for c_ in consts if c_.sort() == TUP]
         consts = [c_ for c_ in consts if z3.is_int(c_)]
         if tconsts or self.row_registry or any(isinstance(v_, SeqV) and v_.meta.get("tterm") is not None for v_ in st.env.values()):
@@ -562,7 +594,7 @@ class Engine:
             for row_ in self.row_registry:
                 for cst in consts:
                     hyps.append(tmark(TID(row_(cst))))
-                    for M_ in getattr(self, "_map_funs", {}).values():
+                    for M_ in getattr(self, "_tuple_from", {}).values():  # images of rows under the NAMED tuple maps of a lemma
                         hyps.append(tmark(TID(M_(row_(cst)))))
             for v_ in st.env.values():  # the tuples held by local variables
                 if isinstance(v_, SeqV) and v_.meta.get("tterm") is not None:
@@ -592,6 +624,7 @@ class Engine:
         ob = Obligation(name, kind, self.func.qualname, hyps, goal2, model_vars=getattr(self, "model_vars", None), size_terms=sizes)
         ob.definitional = self.definitional
         ob.budget_ms = getattr(self.contract.cls, "solver_ms", None) if self.contract is not None else None
+        ob.alt_goal = alt_goal
         self.obls.append(ob)
 
     def check_post(self, st, val):
@@ -2355,6 +2388,32 @@ def skolemize(hyps, goal):
 import itertools as _it  # noqa: E402
 
 _SK = _it.count()
+
+
+def _has_pos_exists(g, depth=0):
+    if depth > 5:
+        return False
+    if z3.is_quantifier(g):
+        return g.is_exists() and g.num_vars() == 1 and g.var_sort(0) == z3.IntSort()
+    if z3.is_and(g) or z3.is_or(g):
+        return any(_has_pos_exists(ch, depth + 1) for ch in g.children())
+    return False
+
+
+def _offer_witnesses(g, cands, depth=0):
+    """exists j. body (positive position) becomes body[c1] or ... or body[ck] or exists j. body (equivalent);
+    nested existentials get the last few candidates only (the formula grows with the product)"""
+    if depth > 5 or not cands:
+        return g
+    if z3.is_quantifier(g) and g.is_exists() and g.num_vars() == 1 and g.var_sort(0) == z3.IntSort():
+        inner = cands[-3:]
+        inst = [_offer_witnesses(z3.substitute_vars(g.body(), t_), inner, depth + 1) for t_ in cands]
+        return z3.Or(inst + [g])
+    if z3.is_and(g):
+        return z3.And([_offer_witnesses(ch, cands, depth + 1) for ch in g.children()])
+    if z3.is_or(g):
+        return z3.Or([_offer_witnesses(ch, cands, depth + 1) for ch in g.children()])
+    return g
 
 
 def _has_quant(f, depth=0):
